@@ -6,7 +6,7 @@ use cosmwasm_std::{
 };
 use cw3::{ProposalResponse, Status, Vote, VoteListResponse, VoterResponse};
 use cw4::{Member, MemberResponse, TotalWeightResponse};
-use cw_multi_test::{Contract, ContractWrapper, Executor};
+use cw_multi_test::{Contract, Executor};
 use cw_utils::{Duration, Threshold, ThresholdResponse};
 use serde_json::{json, Value};
 
@@ -17,31 +17,19 @@ const OTHER: &str = "uother";
 fn fixed_code() -> Box<dyn Contract<Empty>> {
     Recorded::new(
         "cw3",
-        Box::new(ContractWrapper::new(
-            cw3_fixed_multisig::contract::execute,
-            cw3_fixed_multisig::contract::instantiate,
-            cw3_fixed_multisig::contract::query,
-        )),
+        crate::contract_code!(cw3_fixed_multisig, has_reply_cw3_fixed_multisig, has_sudo_cw3_fixed_multisig, has_migrate_cw3_fixed_multisig),
     )
 }
 fn flex_code() -> Box<dyn Contract<Empty>> {
     Recorded::new(
         "cw3",
-        Box::new(ContractWrapper::new(
-            cw3_flex_multisig::contract::execute,
-            cw3_flex_multisig::contract::instantiate,
-            cw3_flex_multisig::contract::query,
-        )),
+        crate::contract_code!(cw3_flex_multisig, has_reply_cw3_flex_multisig, has_sudo_cw3_flex_multisig, has_migrate_cw3_flex_multisig),
     )
 }
 fn group_code() -> Box<dyn Contract<Empty>> {
     Recorded::new(
         "group",
-        Box::new(ContractWrapper::new(
-            cw4_group::contract::execute,
-            cw4_group::contract::instantiate,
-            cw4_group::contract::query,
-        )),
+        crate::contract_code!(cw4_group, has_reply_cw4_group, has_sudo_cw4_group, has_migrate_cw4_group),
     )
 }
 
